@@ -662,7 +662,7 @@ pub fn run(env: &Env) -> i32 {
         Tier::Quick => (4, 4, 40),
         Tier::Thorough => (7, 6, 400),
     };
-    let n = env.cases(8000, 100000);
+    let n = env.cases(8000, 60000);
     let r = run_cases(
         env,
         1,
